@@ -36,7 +36,9 @@ def steadyFamilies : List String := [
   "bus.lockstep_three_outputs_after_warmup",
   "graph.process_again_same_size_stock_nodes",
   "graph.wide_mixer_hundreds_of_inputs_again", "graph.dense_dag_96_nodes_again",
-  "graph.nested_graph_node_with_wired_inputs_again"]
+  "graph.nested_graph_node_with_wired_inputs_again",
+  "graph.process_again_after_a_call_unwound_by_a_failing_user_node",
+  "graph.process_again_after_the_missing_node_panic"]
 
 /-- modelled steady-state allocation effect of a catalogue family; `none` = not in the catalogue -/
 def effectOf (family : String) : Option Effect :=
